@@ -503,7 +503,10 @@ def report(a, prop, results, space, full_depth, t0):
         except (OSError, ValueError):
             ev = None
         if ev is None or ev.get("tier") != a.tier:
-            raise V.Inconclusive("--merge: no evidence of the first engine to add to")
+            # the first engine gave up (its exit status says so): this engine's verdict and coverage stand on their own
+            log("--merge: no evidence of the first engine to add to; writing this engine's part alone")
+            V.write_evidence(prop, a.tier, "translation_validation", coverage, assumptions + ["the first engine of this check did not finish on this run: only the engine D part is reported here"], time.time() - t0, len(seen))
+            return code
         ev["coverage"]["engine_D_families (bounded translation validation of emitted code)"] = coverage
         ev["assumptions"] = ev.get("assumptions", []) + ["engine D part: " + x for x in assumptions]
         ev["wall_s"] = round(ev.get("wall_s", 0) + time.time() - t0, 2)
